@@ -14,6 +14,7 @@ import (
 	"testing"
 	"time"
 
+	"github.com/alicebob/miniredis/v2"
 	"github.com/nuts-foundation/go-stoabs"
 	"github.com/nuts-foundation/nuts-node/crypto/hash"
 	"github.com/nuts-foundation/nuts-node/network/dag/tree"
@@ -29,8 +30,31 @@ type c08Op struct {
 }
 
 type c08StateCase struct {
-	Shape dagshape.Shape `json:"shape"`
-	Ops   []c08Op        `json:"ops"`
+	Shape   dagshape.Shape `json:"shape"`
+	Ops     []c08Op        `json:"ops"`
+	Backend string         `json:"backend,omitempty"` // "" = BBolt file; "redis" = go-stoabs Redis back-end on an in-process miniredis
+}
+
+// c08GenStateRedis: the same histories on the Redis back-end (storage.redis.address in production). There a write transaction
+// is buffered until commit and reads inside it see only committed data, so everything read-modify-written by an admission
+// (count, clock index, highest clock, head, digest pages) depends on the writers being serialised. Shapes are kept wide (many
+// same-clock siblings) so that concurrent additions of *different* transactions exist.
+func c08GenStateRedis(t *rapid.T) c08StateCase {
+	p := dagshape.Params{MaxSegs: 10, MaxLen: 6, Kinds: 3, MaxPrevs: 3}
+	c := c08StateCase{Shape: dagshape.Gen(t, p), Backend: "redis"}
+	n := rapid.IntRange(3, 14).Draw(t, "nops")
+	for i := 0; i < n; i++ {
+		k := rapid.SampledFrom([]string{"add", "add", "badpayload", "failwrite", "dup", "orphan", "reopen", "concurrent", "concurrent", "concurrent"}).Draw(t, "k")
+		op := c08Op{K: k, Sel: rapid.Uint32().Draw(t, "sel")}
+		switch k {
+		case "add":
+			op.N = rapid.SampledFrom([]int{1, 2, 5, 30}).Draw(t, "n")
+		case "concurrent":
+			op.N = rapid.IntRange(2, 6).Draw(t, "n")
+		}
+		c.Ops = append(c.Ops, op)
+	}
+	return c
 }
 
 func c08GenState(t *rapid.T) c08StateCase {
@@ -62,6 +86,7 @@ func c08GenState(t *rapid.T) c08StateCase {
 type c08Fixture struct {
 	x     *h.Ctx
 	dir   string
+	redis *miniredis.Miniredis // nil: BBolt file in dir
 	res   *vdKeyResolver
 	st    *state
 	kv    *vdFaultKV
@@ -72,6 +97,14 @@ type c08Fixture struct {
 }
 
 func (f *c08Fixture) open() {
+	if f.redis != nil {
+		kv, err := vdOpenKVRedis(f.redis.Addr())
+		f.x.NoErr(err, "open redis store")
+		st, kv, err := vdOpenStateOn(kv, f.res)
+		f.x.NoErr(err, "open state on redis")
+		f.st, f.kv = st, kv
+		return
+	}
 	st, kv, err := vdOpenState(f.dir, f.res)
 	f.x.NoErr(err, "open state")
 	f.st, f.kv = st, kv
@@ -205,6 +238,12 @@ func c08RunState(x *h.Ctx, c c08StateCase) {
 	}
 	f := &c08Fixture{x: x, dir: x.TempDir(), res: res, ref: vdNewRef(), ctx: context.Background(),
 		added: map[hash.SHA256Hash]bool{}, pay: map[hash.SHA256Hash][]byte{}}
+	if c.Backend == "redis" {
+		srv, err := miniredis.Run()
+		x.NoErr(err, "start miniredis")
+		f.redis = srv
+		x.Cleanup(srv.Close)
+	}
 	f.open()
 	x.Cleanup(f.close)
 	next := 0 // position in order
@@ -384,6 +423,9 @@ func c08RunState(x *h.Ctx, c c08StateCase) {
 			}
 			next += len(batch)
 			concurrent++
+			if len(batch) >= 2 {
+				x.Class("concurrent:distinct-transactions>=2")
+			}
 		case "sched":
 			// harness-owned interleaving of the read and write transactions of 2-3 concurrent Add calls
 			var batch []int
@@ -525,6 +567,12 @@ func c08RunState(x *h.Ctx, c c08StateCase) {
 	if max >= PageSize && (rollbacks > 0 || reopens > 0) {
 		x.NonTrivial()
 	}
+	if c.Backend == "redis" {
+		x.Class("backend:redis")
+		if concurrent > 0 {
+			x.NonTrivial()
+		}
+	}
 	h.Count("C08", x.Unit, "transactions_added", len(f.ref.set))
 }
 
@@ -534,4 +582,12 @@ func TestVerif_C08_State(t *testing.T) {
 
 func TestVerifReplay_C08_State(t *testing.T) {
 	h.Replay(t, "C08", "TestVerif_C08_State", c08RunState)
+}
+
+func TestVerif_C08_StateRedis(t *testing.T) {
+	h.Check(t, "C08", c08GenStateRedis, c08RunState)
+}
+
+func TestVerifReplay_C08_StateRedis(t *testing.T) {
+	h.Replay(t, "C08", "TestVerif_C08_StateRedis", c08RunState)
 }
